@@ -78,6 +78,8 @@ class CtlSim:
         self.loop = NetLoop(cfg.get("hmask", 0), cfg.get("net_seed", 0), cfg.get("net", {}))
         self.loop.set_debug(False)
         self.pool_tasks = []
+        self.cancel_counts = []
+        self.worker_prints = 0
         self.loop.on_task_created = self._on_task_created
         self.events = []
         self.viol = []
@@ -164,6 +166,11 @@ class CtlSim:
                "state": "live"}
         self.invocations.append(rec)
         self.ev("ws", n, fname, rec["args"], rec["kwargs"], name)
+        noisy = self.cfg.get("noisy")
+        if noisy:
+            # user code may print: that is the application's own console output, not the server's and nobody's reply
+            print(f"WORKERSAYS {n} start")
+            self.worker_prints += 1
         try:
             fut = self.loop.create_future()
             self.gates[n] = fut
@@ -172,11 +179,17 @@ class CtlSim:
             if not self.torn:
                 self.cancel_obs += 1
                 rec["state"] = "cancelled"
-                self.ev("wc", n)
+                # how many cancellation requests the task has received (an id named twice in one cancel() counts twice)
+                rec["cancelling"] = asyncio.current_task().cancelling()
+                self.cancel_counts.append((n, rec["cancelling"]))
+                self.ev("wc", n, rec["cancelling"])
             raise
         else:
             rec["state"] = "done"
             self.ev("wx", n)
+            if noisy and not self.torn:
+                print(f"WORKERSAYS {n} end")
+                self.worker_prints += 1
         return n
 
     def cb_record(self, which, task_id):
@@ -193,7 +206,7 @@ class CtlSim:
             except Exception as e:
                 groups.append((g, type(e).__name__))
         return (p.num_running, p.num_cancelled, p.num_ended, p.is_locked, p.is_full, str(p.pool_size),
-                tuple(groups), len(self.invocations), self.cancel_obs)
+                tuple(groups), len(self.invocations), self.cancel_obs, tuple(self.cancel_counts))
 
     def known_groups(self):
         return list(self.run.get("groups", ("g1", "g2", "g\t3", "g\u00a04", "", "apply-work-group-0", "map-work-group-0", "start-group-0",
@@ -635,6 +648,17 @@ class CtlSim:
             if gc_was:
                 gc.enable()
         self.captured = (cap_out.getvalue(), cap_err.getvalue())
+        if self.worker_prints:
+            # what the application's own workers printed must have reached the console - all of it, and nothing else
+            lines = self.captured[0].split("\n")
+            mine = [ln for ln in lines if ln.startswith("WORKERSAYS ")]
+            if len(mine) != self.worker_prints:
+                self.violate("C18", "console_output_diverted", f"user code printed {self.worker_prints} lines, {len(mine)} reached the console")
+            self.captured = ("\n".join(ln for ln in lines if not ln.startswith("WORKERSAYS ")).strip("\n"), self.captured[1])
+            for c in self.clients.values():
+                if c.kind == "raw" and c.connected and any("WORKERSAYS" in r for r in c.replies()):
+                    self.violate("C18", "foreign_output", f"client {c.label}: a reply contains console output of user code")
+                    break
         if self.captured[0] or self.captured[1]:
             self.violate("C18", "server_printed", f"something was printed on the server's stdout/stderr: {self.captured[0][:80]!r} {self.captured[1][:80]!r}")
         return self
